@@ -129,10 +129,16 @@ func canonicalSlice(c Conj, s ASlice, depth int) ASlice {
 	var hit *Write
 	for _, w := range s.root.writes {
 		if !consistent(c, w.state) {
+			if debugTrace {
+				println("canon: inconsistent write", w.pos, "root", s.root.key)
+			}
 			continue
 		}
 		wd, ok := writeWidth(c, w)
 		if !ok {
+			if debugTrace {
+				println("canon: width undecided", w.pos, w.width.String())
+			}
 			return s
 		}
 		end := w.off.add(wd)
